@@ -11,7 +11,7 @@ FIELDS = ["version", "uuid", "timestamp", "root", "owner", "name", "branch", "pa
 def run(ctx):
     ctx.functions += ["ReportWriter.to_json (all _*_to_json helpers)", "ReportReader.from_json", "ReportReader.get_report_version", "Report.__init__", "Codebase.add_file/aggregate (via the reader)"]
     maxn = 2 if ctx.quick() else 3
-    shapes = [{"files": 2, "ms": 2, "repo": True, "version": True}, {"files": 1, "ms": 1, "repo": False, "version": True}]
+    shapes = [{"files": 2, "ms": 2, "repo": True, "version": True}, {"files": 1, "ms": 1, "repo": False, "version": True}, {"files": 2, "ms": 2, "repo": False, "version": True, "same_checksum": True}]
     if not ctx.quick():
         shapes += [{"files": 0, "ms": 0, "repo": False, "version": False}, {"files": 2, "ms": 0, "repo": True, "version": False}, {"files": 1, "ms": 2, "repo": True, "version": True}]
     else:
